@@ -19,6 +19,9 @@ pub fn quant_input() -> BoxedStrategy<f32> {
         // around the hysteresis edges of a note
         2 => (0u32..=120, prop_oneof![Just(-HYST), Just(SEMI + HYST)], -3e-5f64..3e-5).prop_map(|(k, e, d)| (k as f64 / 12.0 + e + d) as f32),
         1 => -1.0f32..11.0f32,
+        // around the ends of the range, where clamping and the window interact
+        2 => 9.9f32..10.6f32,
+        1 => -0.2f32..0.1f32,
         1 => prop_oneof![Just(f32::NAN), Just(f32::INFINITY), Just(f32::NEG_INFINITY), Just(-0.0f32), Just(1e30f32), Just(-1e30f32), Just(10.0f32), Just(0.0f32), Just(f32::MAX), Just(1e-45f32)],
     ]
     .boxed()
